@@ -128,9 +128,28 @@ def gen_second_session_script(rng, tier):
     return '\n'.join(L) + '\n'
 
 
+def gen_parallel_second_session_script(rng):
+    """Several clients write values of 5 bytes to 5 KB at once into the blob that was re-opened (append mode) after a
+    clean shutdown: every acknowledged value is read back byte for byte, through the in-memory index and through a
+    rebuilt one (the appends have to reach the file in the order in which their offsets were handed out)."""
+    nk = rng.choice([4, 8])
+    L = ['cfg K=4 dup=1 runtime=%s validate=%d nomodel=1' % (rng.choice(['mt', 'mt', 'ct']), rng.choice([0, 1])), 'open', 'nop parallel-second-session']
+    L.append('W 00000001 5 - 5 1')
+    L += ['close', 'open']
+    L.append('par tasks=%d ops=%d keys=%d seed=%d kinds=W base=2000' % (rng.choice([4, 8, 16]), rng.choice([5, 10]), nk, rng.randrange(1, 10**6)))
+    L.append('quiesce')
+    for i in range(nk):
+        L.append('RD %08x' % (i + 1))
+    L += [rng.choice(['close', 'drop']), 'rmindex 0', 'open']
+    for i in range(nk):
+        L.append('RD %08x' % (i + 1))
+    L += ['counts', 'close']
+    return '\n'.join(L) + '\n'
+
+
 def gen(tier, rng):
     n = 120 if tier == 'quick' else 1500
-    out = [('second%05d' % i, gen_second_session_script(rng, tier)) for i in range(n // 6)]
+    out = [('second%05d' % i, gen_second_session_script(rng, tier)) for i in range(n // 6)] + [('parsecond%05d' % i, gen_parallel_second_session_script(rng)) for i in range(n // 10)]
     for i in range(n):
         out.append(('bytes%05d' % i, gen_script(rng, tier, big=(i % 12 == 0))))
     return out
@@ -138,6 +157,25 @@ def gen(tier, rng):
 
 def oracle(lines, io, spec=None):
     fails = []
+    if 'nop parallel-second-session' in lines:
+        pi = next(i for i, l in enumerate(lines) if l.startswith('par '))
+        if pi >= len(io) or not io[pi].startswith('par ') or io[pi].endswith('Timeout'):
+            return ['the concurrent writes did not finish: %s' % (io[pi][:100] if pi < len(io) else '-')]
+        acked = {}
+        for tok in io[pi].split()[1:]:
+            f = tok.split('/')[3].split(':')
+            if f[0] == 'W' and f[-1] == 'ok':
+                acked.setdefault(int(f[1]), []).append((int(f[2]), int(f[3])))
+        for i in range(pi + 1, min(len(lines), len(io))):
+            if lines[i].startswith('RD '):
+                k = int(lines[i].split()[1], 16) - 1
+                for (ts, ln) in acked.get(k, []):
+                    if '(%d,0,m0,%d:%d)' % (ts, ln, ts) not in io[i] and '(%d,0,-,%d:%d)' % (ts, ln, ts) not in io[i]:
+                        fails.append('line %d `%s`: the acknowledged value (ts %d, %d bytes) is not read back as written: %s' % (i, lines[i], ts, ln, io[i][:160]))
+                        break
+            if lines[i] == 'open' and io[i] != 'open ok':
+                fails.append('line %d: %s' % (i, io[i]))
+        return fails[:4]
     damaged = None
     # lines exclude comments; recover the damaged key from the flip position is not needed: any read that
     # returns bytes that are not the written payload shows up as `?crc` in the harness output
